@@ -131,6 +131,20 @@ AddItem(f, item) ==
   /\ Idle /\ calc' = AddItemTo(calc, f, item)
   /\ last' = [call |-> "add_type_item", ret |-> AddItemOk(calc, f, item.idx)] /\ UNCHANGED <<sess, run, today>>
 
+\* set_timezone(name): the default zone becomes the zone the name denotes - an entry of the zone table (calc.zones, the
+\* configured table handed in by the driver) or GMT[+-]h[:mm] - and the call fails, changing nothing, for any other name.
+\* w is the written name in structured form: [kind |-> "table", name] | [kind |-> "gmt", name, sign, h, m] | [kind |-> "none"]
+ZoneOfSpelling(w) ==
+  CASE w.kind = "table" /\ w.name \in DOMAIN calc.zones -> [ok |-> TRUE, name |-> w.name, off |-> calc.zones[w.name]]
+    [] w.kind = "gmt" -> [ok |-> TRUE, name |-> w.name, off |-> (w.h * 60 + w.m) * w.sign]
+    [] OTHER -> [ok |-> FALSE, name |-> "", off |-> 0]
+SetTimezone(w) ==
+  /\ Idle
+  /\ LET z == ZoneOfSpelling(w) IN
+       /\ calc' = IF z.ok THEN [calc EXCEPT !.tz = [name |-> z.name, off |-> z.off]] ELSE calc
+       /\ last' = [call |-> "set_tz", ret |-> z.ok]
+  /\ UNCHANGED <<sess, run, today>>
+
 (* ---- environment ------------------------------------------------------ *)
 Tick == Idle /\ today' = today + 1 /\ last' = [call |-> "tick"] /\ UNCHANGED <<calc, sess, run>>
 
@@ -167,7 +181,7 @@ FailKeepsEnvOn(lineset) ==
      IN  m.slot.k \in {"fails", "err"} => m.env = sess[s].env
 
 \* C04 as action properties
-EvalFramesCalc   == [][calc' = calc \/ last'.call \in {"set_dec", "set_tho", "set_num", "set_pct", "set_mon", "update_currency", "add_rule", "delete_rule", "add_type", "add_type_item"}]_vars
+EvalFramesCalc   == [][calc' = calc \/ last'.call \in {"set_dec", "set_tho", "set_num", "set_pct", "set_mon", "set_tz", "update_currency", "add_rule", "delete_rule", "add_type", "add_type_item"}]_vars
 ExecuteIsPrivate == [][last'.call = "execute" /\ last' # last => sess' = sess]_vars
 SessionIsolation ==
   [][\A s \in DOMAIN sess : (run.active /\ run.s # s) => (s \in DOMAIN sess' /\ sess'[s] = sess[s])]_vars
